@@ -997,6 +997,8 @@ dns_resolver_recv_cb(tp_task_p tptask __unused, int error, sockaddr_storage_p ad
 	task = (dns_rslvr_task_p)rslvr->tasks_tmr[dns_hdr_id_get(dns_hdr)].ident;
 	if (NULL == task)
 		goto rcv_next;
+	if (NULL == task->cache_entry) /* Queued behind other task for the same name: nothing was sent with this id. */
+		goto rcv_next;
 	/* Filter packets by from addr. */
 	if (0 == sa_addr_port_is_eq(addr, &rslvr->dns_addrs[task->cur_srv_idx]))
 		goto rcv_next;
